@@ -70,17 +70,27 @@ func (o *c16geom) clone() c16obj {
 	panic("unreachable")
 }
 
-type c16bounds struct{ b *geom.Bounds }
+// w: how many dimensions the box holds (Set with more values than the layout's stride widens it
+// without changing the layout)
+type c16bounds struct {
+	b *geom.Bounds
+	w int
+}
 
-func (o *c16bounds) snap() string {
-	s := o.b.Layout().Stride()
+func (o *c16bounds) snap() (out string) {
+	defer func() {
+		if recover() != nil {
+			out = "(panic)" // a dimension the box was given is no longer there
+		}
+	}()
+	s := o.w
 	mn, mx := make([]float64, s), make([]float64, s)
 	for i := 0; i < s; i++ {
 		mn[i], mx[i] = o.b.Min(i), o.b.Max(i)
 	}
 	return fmt.Sprintf("((%d) (%s %s))", int(o.b.Layout()), sxCoord(mn), sxCoord(mx))
 }
-func (o *c16bounds) clone() c16obj { return &c16bounds{o.b.Clone()} }
+func (o *c16bounds) clone() c16obj { return &c16bounds{o.b.Clone(), o.w} }
 
 type c16coord struct{ c geom.Coord }
 
@@ -241,19 +251,23 @@ func genC16(r *Rng, e *Emitter, n int) {
 		case 7: // Bounds, possibly with inverted (empty) dimensions
 			kind = "bounds"
 			b := geom.NewBounds(l)
+			w := s
 			if !r.chance(1, 4) {
-				args := make([]float64, 2*s)
+				if r.chance(1, 4) {
+					w = s + 1 + r.Intn(3) // more values than the layout has dimensions
+				}
+				args := make([]float64, 2*w)
 				for i := range args {
 					args[i] = float64(r.Intn(11) - 5)
 				}
 				b.Set(args...)
 			}
-			a = &c16bounds{b}
-			mn, mx := make([]float64, s), make([]float64, s)
-			for i := 0; i < s; i++ {
+			a = &c16bounds{b, w}
+			mn, mx := make([]float64, w), make([]float64, w)
+			for i := 0; i < w; i++ {
 				mn[i], mx[i] = b.Min(i), b.Max(i)
 			}
-			inits = []string{initSlice(s, sxCoord(mn)), initSlice(s, sxCoord(mx))}
+			inits = []string{initSlice(w, sxCoord(mn)), initSlice(w, sxCoord(mx))}
 			scal = fmt.Sprintf("(%d)", int(l))
 		default: // Coord
 			kind = "coord"
